@@ -134,13 +134,13 @@ def net_tokens():
         st.sampled_from([b"http", b"https", b"ftp", b"HtTp", b"FTP", b"hxxp", b"file", b"httpx", b"ws"]),
         st.sampled_from([b"://", b"://", b"://", b":/", b":///"]),
         st.sampled_from([b"", b"", b"u@", b"u:p@", b"%41:%5b@"]),
-        st.one_of(dom, ip, st.sampled_from([b"", b"[::1]", b"[0:0:0:0:0:0:0:1]", b"%65x%61mple.com", b"localhost", b"0x7f.1", b"3232235777", b"a_b.com"])),
+        st.one_of(dom, ip, st.sampled_from([b"", b"[::1]", b"[0:0:0:0:0:0:0:1]", b"%65x%61mple.com", b"localhost", b"0x7f.1", b"3232235777", b"a_b.com", b".com", b"%2Eio", b"..org", b"com", b".", b"a..com", b"-.net"])),
         st.sampled_from([b"", b"", b":80", b":99999", b":"]),
         st.sampled_from([b"", b"/", b"/"]),
         st.lists(urlpiece, max_size=8).map(b"".join),
     ).map(b"".join)
     built = S.cached("c12.url_parts", c12.url_parts).map(lambda p: c12.assemble(p)[0])
-    unc = st.tuples(st.sampled_from([b"\\\\", b"\\\\?\\UNC\\", b"\\\\.\\UNC\\"]), st.one_of(dom, ip), st.sampled_from([b"", b"@SSL", b"@SSL@443", b"@8080"]), st.just(b"\\share\\file.txt")).map(b"".join)
+    unc = st.tuples(st.sampled_from([b"\\\\", b"\\\\?\\UNC\\", b"\\\\.\\UNC\\"]), st.one_of(dom, ip, st.sampled_from([b".com", b"..org", b"com", b"a_b.com"])), st.sampled_from([b"", b"@SSL", b"@SSL@443", b"@8080"]), st.just(b"\\share\\file.txt")).map(b"".join)
     return st.one_of(ip, ip, dom, dom, email, url, url, url, built, built, unc, S.frag_net(), S.frag_url())
 
 
